@@ -1,10 +1,17 @@
 #!/bin/bash
-# Build the framework from files on disk only: sanitizer + hooks-on build of /repo, then all harnesses.
+# Build the framework from files on disk only: sanitizer + hooks-on build of /repo, then the harnesses of all claimed checks.
 set -e
 cd /verif
 ./vv/repo_build.sh
 python3-vt -c "
-import sys; sys.path.insert(0,'/verif')
+import sys, json; sys.path.insert(0,'/verif')
 from vv import core, registry
-core.build_harness(sorted(core.HARNESSES))
+ready = json.load(open('/verif/vv/ready.json'))
+names = set()
+for pid in ready:
+    for p in registry.PROPS[pid]['parts']:
+        if p['engine'] in ('rc', 'fz'): names.add(p['harness'])
+        names.update(p.get('needs_harness', []))
+core.build_harness(sorted(names))
+print('setup ok:', sorted(names))
 "
